@@ -32,7 +32,7 @@ def _unused_load() -> list[dict]:
 
 def _apply(v: dict) -> Optional[dict]:
     overlay = {}
-    edits = v.get("edits") or [{"file": v["file"], "old": v["old"], "new": v["new"]}]
+    edits = v.get("edits") or [{"file": v["file"], "old": v["old"], "new": v["new"], "all": v.get("all")}]
     for ed in edits:
         rel = ed["file"]
         src = overlay.get(rel)
